@@ -149,6 +149,238 @@ fn generated() -> Vec<Base> {
     v
 }
 
+/// tiny stored containers for the interpreter / sanitizer replays (Miri is ~4 orders of magnitude
+/// slower than native code and cannot afford inflate)
+fn tiny_bases() -> Vec<Base> {
+    let mut rng = Rng::new(0xC06A);
+    let mut sh = MSheet::new("S1");
+    sh.cells.insert((0, 0), MCell::v(Val::Num(1.5)));
+    sh.cells.insert((0, 1), MCell::v(Val::Str("h\u{e9}llo \u{4e16}".into())));
+    sh.cells.insert((1, 0), MCell::v(Val::Bool(true)));
+    sh.cells.insert((1, 1), MCell { val: Val::Num(2.5), xf: Some(2), formula: Some("A1+1".into()) });
+    sh.cells.insert((2, 0), MCell { val: Val::Str("fs".into()), xf: None, formula: Some("B1&\"x\"".into()) });
+    sh.merges.push(((3, 0), (3, 1)));
+    let mut book = MBook { sheets: vec![sh], xfs: gen::basic_xfs(), ..Default::default() };
+    book.defined_names.push(("N1".into(), "S1!$A$1".into()));
+    let p = Project {
+        codepage: 1252,
+        modules: vec![Module { name: "M".into(), source: b"Sub a()\r\nEnd Sub\r\nSub a()\r\nEnd Sub\r\n".to_vec(), text_offset: 0, document: false, read_only: false, private: false }],
+        references: vec![Reference { name: "stdole".into(), kind: RefKind::Registered }],
+        compat_version: false,
+    };
+    let mut st = Stats::default();
+    let vba_bin = crate::enc::cfb::build(&ovba::project_entries(&p, Strategy::Greedy, None, &mut rng, &mut st), &CfbChoices::default(), &mut rng).bytes;
+    let mut v = vec![];
+    {
+        let extra = BiffExtra { rgce: Default::default(), names: vec![("N1".into(), vec![0x3A, 0, 0, 0, 0, 0, 0])], xtis: vec![(0, 0, 0)] };
+        let more = ovba::project_entries(&p, Strategy::Greedy, Some("_VBA_PROJECT_CUR"), &mut rng, &mut st);
+        let (bytes, _) = crate::enc::xls_file(&book, &BiffChoices::default(), &extra, &CfbChoices::default(), &more, &mut rng);
+        v.push(Base { name: "tiny.xls".into(), fmt: Fmt::Xls, bytes });
+    }
+    {
+        let mut ch = XlsxChoices::default();
+        ch.deflate_some = false;
+        ch.forms = vec![crate::enc::xlsx::StrForm::SharedPlain, crate::enc::xlsx::StrForm::InlineRich];
+        ch.vba = Some(vba_bin);
+        v.push(Base { name: "tiny.xlsm".into(), fmt: Fmt::Xlsx, bytes: crate::enc::xlsx::encode(&book, &ch, &mut rng).bytes });
+    }
+    {
+        let mut ch = XlsbChoices::default();
+        ch.deflate = false;
+        let extra = XlsbExtra { rgce: Default::default(), names: vec![("N1".into(), vec![0x3A, 0, 0, 0, 0, 0, 0, 0, 0])], xtis: vec![(0, 0)] };
+        v.push(Base { name: "tiny.xlsb".into(), fmt: Fmt::Xlsb, bytes: crate::enc::xlsb::encode(&book, &ch, &extra, &mut rng).bytes });
+    }
+    {
+        let mut obook = book.clone();
+        for sh in obook.sheets.iter_mut() {
+            for c in sh.cells.values_mut() {
+                if let Some(f) = &c.formula {
+                    c.formula = Some(format!("of:={}", f));
+                }
+            }
+        }
+        obook.defined_names = vec![("N1".into(), "$S1.$A$1".into())];
+        let mut ch = OdsChoices::default();
+        ch.deflate = false;
+        v.push(Base { name: "tiny.ods".into(), fmt: Fmt::Ods, bytes: crate::enc::ods::encode(&obook, &ch, &mut rng).bytes });
+    }
+    v
+}
+
+/// In-process replay of a slice of the fault enumeration over the tiny bases: no worker
+/// processes, no watchdog thread, so that it can run under Miri (and, natively, under valgrind).
+/// Prints one summary line; panics / over-bound allocations found here are reported exactly like
+/// in the main run, undefined behaviour is reported by the interpreter itself.
+pub fn tiny_run(shard: u64, shards: u64, max_cases: u64) -> i32 {
+    use std::sync::atomic::Ordering::Relaxed;
+    let all = tiny_bases();
+    let mut out = UnitResult::default();
+    let mut ran = 0u64;
+    let mut kinds = std::collections::BTreeSet::new();
+    for (bi, base) in all.iter().enumerate() {
+        // dry pass: count the atoms of this base
+        let mut n = 0u64;
+        faults::SHARDS.store(1, Relaxed);
+        faults::SHARD.store(0, Relaxed);
+        faults::IDX.store(0, Relaxed);
+        faults::SKIP.store(u64::MAX, Relaxed);
+        let mut count = |_k: String, _d: String, _b: Vec<u8>| n += 1;
+        match base.fmt {
+            Fmt::Xls => faults::xls_atoms(&base.bytes, 1, false, &mut count),
+            _ => faults::zip_atoms(&base.bytes, bi as u64, 1, false, &mut count),
+        }
+        let per_base = (max_cases / all.len() as u64).max(1);
+        let stride = (n / (per_base * shards)).max(1);
+        // real pass: atom i runs here when it is the first of its stride block and the block is ours
+        faults::SKIP.store(0, Relaxed);
+        faults::SHARDS.store(stride * shards, Relaxed);
+        faults::SHARD.store(stride * shard, Relaxed);
+        // IDX holds the index of the atom about to be emitted
+        faults::IDX.store(0, Relaxed);
+        if shard == 0 {
+            run_case(base, "none", "", &base.bytes, &mut out, bi as u64, 0, true);
+            ran += 1;
+        }
+        let mut idx = 0u64;
+        let mut here = 0u64;
+        let mut case = |kind: String, detail: String, bytes: Vec<u8>| {
+            let i = idx;
+            idx += 1;
+            faults::IDX.store(idx, Relaxed);
+            if i % (stride * shards) != stride * shard || here >= per_base {
+                return;
+            }
+            here += 1;
+            kinds.insert(kind.split(':').take(2).collect::<Vec<_>>().join(":"));
+            run_case(base, &kind, &detail, &bytes, &mut out, bi as u64, i, i % 3 == 0);
+        };
+        match base.fmt {
+            Fmt::Xls => faults::xls_atoms(&base.bytes, 1, false, &mut case),
+            _ => faults::zip_atoms(&base.bytes, bi as u64, 1, false, &mut case),
+        }
+        ran += here;
+    }
+    let mut classes = std::collections::BTreeSet::new();
+    for f in &out.failures {
+        if classes.insert(f.class.clone()) {
+            let mut d = f.detail.clone();
+            if let Some(o) = d.as_object_mut() {
+                o.remove("input_hex");
+            }
+            println!("TINY-FAILURE class={} detail={}", f.class, d);
+        }
+    }
+    println!(
+        "TINY-RUN shard={}/{} cases={} atom_kinds={} opened={} open_errors={} failures={} kinds={:?}",
+        shard,
+        shards,
+        ran,
+        kinds.len(),
+        out.features.iter().filter(|(k, _)| k.ends_with(":opened")).map(|(_, v)| *v).sum::<u64>(),
+        out.features.iter().filter(|(k, _)| k.ends_with(":open_error")).map(|(_, v)| *v).sum::<u64>(),
+        classes.len(),
+        kinds
+    );
+    if classes.is_empty() {
+        0
+    } else {
+        1
+    }
+}
+
+/// writes a slice of the tiny fault enumeration as files `<n>_<fmt>__<kind>.bin` (natively; the
+/// interpreter then only has to run calamine on them)
+pub fn tiny_dump(dir: &str, max_cases: u64) -> i32 {
+    use std::sync::atomic::Ordering::Relaxed;
+    let _ = std::fs::remove_dir_all(dir);
+    if std::fs::create_dir_all(dir).is_err() {
+        return 2;
+    }
+    let all = tiny_bases();
+    let mut written = 0u64;
+    for (bi, base) in all.iter().enumerate() {
+        let mut n = 0u64;
+        faults::SHARDS.store(1, Relaxed);
+        faults::SHARD.store(0, Relaxed);
+        faults::IDX.store(0, Relaxed);
+        faults::SKIP.store(u64::MAX, Relaxed);
+        let mut count = |_k: String, _d: String, _b: Vec<u8>| n += 1;
+        match base.fmt {
+            Fmt::Xls => faults::xls_atoms(&base.bytes, 1, false, &mut count),
+            _ => faults::zip_atoms(&base.bytes, bi as u64, 1, false, &mut count),
+        }
+        let per_base = (max_cases / all.len() as u64).max(1);
+        let stride = (n / per_base).max(1);
+        faults::SKIP.store(0, Relaxed);
+        faults::SHARDS.store(stride, Relaxed);
+        faults::SHARD.store(0, Relaxed);
+        faults::IDX.store(0, Relaxed);
+        let f = format!("{:?}", base.fmt).to_lowercase();
+        let _ = std::fs::write(format!("{}/{:05}_{}__none.bin", dir, written, f), &base.bytes);
+        written += 1;
+        let mut idx = 0u64;
+        let mut case = |kind: String, _d: String, bytes: Vec<u8>| {
+            let i = idx;
+            idx += 1;
+            faults::IDX.store(idx, Relaxed);
+            if i % stride != 0 {
+                return;
+            }
+            let k: String = kind.chars().map(|c| if c.is_ascii_alphanumeric() || c == '-' || c == '.' { c } else { '_' }).take(60).collect();
+            let _ = std::fs::write(format!("{}/{:05}_{}__{}.bin", dir, written, f, k), &bytes);
+            written += 1;
+        };
+        match base.fmt {
+            Fmt::Xls => faults::xls_atoms(&base.bytes, 1, false, &mut case),
+            _ => faults::zip_atoms(&base.bytes, bi as u64, 1, false, &mut case),
+        }
+    }
+    println!("TINY-DUMP dir={} files={}", dir, written);
+    0
+}
+
+/// runs the files written by `tiny_dump` (those with index % shards == shard) in-process
+pub fn tiny_files(dir: &str, shard: u64, shards: u64) -> i32 {
+    let mut names: Vec<String> = std::fs::read_dir(dir).map(|d| d.filter_map(|e| e.ok()).map(|e| e.file_name().to_string_lossy().into_owned()).collect()).unwrap_or_default();
+    names.sort();
+    let mut out = UnitResult::default();
+    let mut ran = 0u64;
+    for (i, n) in names.iter().enumerate() {
+        if i as u64 % shards != shard || !n.ends_with(".bin") {
+            continue;
+        }
+        let fmt = match n.split('_').nth(1) {
+            Some("xls") => Fmt::Xls,
+            Some("xlsx") => Fmt::Xlsx,
+            Some("xlsb") => Fmt::Xlsb,
+            Some("ods") => Fmt::Ods,
+            _ => continue,
+        };
+        let Ok(bytes) = std::fs::read(format!("{}/{}", dir, n)) else { continue };
+        let base = Base { name: n.clone(), fmt, bytes: vec![] };
+        let kind = n.split("__").nth(1).unwrap_or("?").trim_end_matches(".bin").to_string();
+        println!("TINY-CASE {}", n);
+        run_case(&base, &kind, "", &bytes, &mut out, 0, i as u64, i % 3 == 0);
+        ran += 1;
+    }
+    let mut classes = std::collections::BTreeSet::new();
+    for f in &out.failures {
+        if classes.insert(f.class.clone()) {
+            let mut d = f.detail.clone();
+            if let Some(o) = d.as_object_mut() {
+                o.remove("input_hex");
+            }
+            println!("TINY-FAILURE class={} detail={}", f.class, d);
+        }
+    }
+    println!("TINY-RUN shard={}/{} cases={} failures={}", shard, shards, ran, classes.len());
+    if classes.is_empty() {
+        0
+    } else {
+        1
+    }
+}
+
 fn bases(tier: Tier) -> Vec<Base> {
     let mut v = generated();
     v.extend(fixtures(tier.pick(1 << 20, 8 << 20)));
